@@ -360,7 +360,9 @@ class Walker:
         on_expr: Optional[Callable[[ast.AST, Facts], None]] = None,
         on_stmt: Optional[Callable[[ast.stmt, Facts], None]] = None,
         on_nested: Optional[Callable[[ast.FunctionDef, Facts], None]] = None,
+        summaries: Optional[Dict[str, Dict[Tuple[Optional[int], int], int]]] = None,
     ):
+        self.summaries = summaries or {}
         self.on_expr = on_expr
         self.on_stmt = on_stmt
         self.on_nested = on_nested
@@ -525,6 +527,27 @@ class Walker:
                         f = f.havoc_containing(base)
         return f
 
+    def advances(self, target: ast.AST, value: ast.AST) -> Dict[str, int]:
+        """names in `target` that `target = f(...)` can only move forward: f's summary says the returned component equals
+        one of its parameters plus a non-negative constant, and the call passes that very name for the parameter"""
+        out: Dict[str, int] = {}
+        if not isinstance(value, ast.Call):
+            return out
+        d = dotted(value.func)
+        summ = self.summaries.get(d.split(".")[-1]) if d else None
+        if not summ or value.keywords or any(isinstance(a, ast.Starred) for a in value.args):
+            return out
+        elts: List[Tuple[Optional[int], ast.AST]] = (
+            [(k, t) for k, t in enumerate(target.elts)] if isinstance(target, (ast.Tuple, ast.List)) else [(None, target)]
+        )
+        for k, t in elts:
+            if not isinstance(t, ast.Name):
+                continue
+            for (kk, j), c in summ.items():
+                if kk == k and j < len(value.args) and isinstance(value.args[j], ast.Name) and value.args[j].id == t.id:
+                    out[t.id] = c
+        return out
+
     def _monotone(self, before: Facts, havocked: Facts, body: List[ast.stmt]) -> Facts:
         """A variable that the loop only ever increments keeps its lower bounds (monotone widening)."""
         incs: Dict[str, bool] = {}
@@ -537,8 +560,16 @@ class Walker:
                     incs[v] = incs.get(v, True) and good
                 elif isinstance(n, ast.Name) and isinstance(n.ctx, ast.Store):
                     p = getattr(n, "_parent", None)
-                    if not (isinstance(p, ast.AugAssign) and p.target is n):
-                        incs[n.id] = False
+                    if isinstance(p, ast.AugAssign) and p.target is n:
+                        continue
+                    # `v, i = helper(s, i)` with a summary "returns i + c, c >= 0" is an increment too
+                    a = p
+                    if isinstance(a, (ast.Tuple, ast.List)):
+                        a = getattr(a, "_parent", None)
+                    if isinstance(a, ast.Assign) and len(a.targets) == 1 and n.id in self.advances(a.targets[0], a.value):
+                        incs[n.id] = incs.get(n.id, True)
+                        continue
+                    incs[n.id] = False
         keep: List[L.Form] = []
         for v, good in incs.items():
             if not good:
@@ -628,7 +659,17 @@ class Walker:
                     for t, e in zip(target.elts, value.elts):
                         f = self._assign(t, e, f)
                     return f
+            adv = self.advances(target, value)
+            keep: List[L.Form] = []
+            for v in adv:
+                # v_new >= v_old: every lower bound on v survives
+                for c in f.lin:
+                    cv = c.get(v)
+                    if cv is not None and cv > 0 and all(not (tokens(str(s_)) & set(target_names(target))) for s_ in L.symbols(c) if s_ != v):
+                        keep.append(c)
             f = f.havoc(target_names(target))
+            if keep:
+                f = f.add_lin(*keep)
             # shape unpacking:  h, w = X.shape  => h == X.shape[0] ...
             return f
         if isinstance(target, ast.Starred):
@@ -733,3 +774,54 @@ def _walk_same_loop(node: ast.AST):
 
 def is_true_const(n: ast.AST) -> bool:
     return isinstance(n, ast.Constant) and n.value is True
+
+
+def summarise_module(funcs: Dict[str, ast.FunctionDef]) -> Dict[str, Dict[Tuple[Optional[int], int], int]]:
+    """For each module-level function: which components of its return value equal a parameter plus a non-negative
+    constant on every return path (cursor-advancing helpers: `return value, i + 1`)."""
+    lz = L.Linearizer()
+    out: Dict[str, Dict[Tuple[Optional[int], int], int]] = {}
+    for q, fn in funcs.items():
+        if "." in q:
+            continue
+        params = [a.arg for a in fn.args.args]
+        stored = {n.id for n in ast.walk(fn) if isinstance(n, ast.Name) and isinstance(n.ctx, ast.Store)}
+        rets = [r for r in _walk_own_returns(fn)]
+        if not rets or any(r.value is None for r in rets):
+            continue
+        widths = {len(r.value.elts) if isinstance(r.value, ast.Tuple) else None for r in rets}
+        if len(widths) != 1:
+            continue
+        w = widths.pop()
+        comps: List[Optional[int]] = list(range(w)) if w is not None else [None]
+        summ: Dict[Tuple[Optional[int], int], int] = {}
+        for k in comps:
+            for j, pn in enumerate(params):
+                if pn in stored:
+                    continue
+                cs: List[int] = []
+                for r in rets:
+                    e = r.value.elts[k] if k is not None else r.value  # type: ignore[union-attr]
+                    f = lz.lin(e)
+                    if f is None or set(map(str, L.symbols(f))) != {pn} or f[L.symbols(f)[0]] != 1:
+                        break
+                    c = L.cval(f)
+                    if c < 0 or c != int(c):
+                        break
+                    cs.append(int(c))
+                else:
+                    summ[(k, j)] = min(cs)
+        if summ:
+            out[q] = summ
+    return out
+
+
+def _walk_own_returns(fn: ast.FunctionDef):
+    stack: List[ast.AST] = list(fn.body)
+    while stack:
+        n = stack.pop()
+        if isinstance(n, (ast.FunctionDef, ast.AsyncFunctionDef, ast.Lambda, ast.ClassDef)):
+            continue
+        if isinstance(n, ast.Return):
+            yield n
+        stack.extend(ast.iter_child_nodes(n))
